@@ -3,7 +3,7 @@
    the concatenation is a statement about LLVM MC's event streams, which are outside the model; it is decided on the implementation
    by harness/c13.py (one known finding). *)
 From Coq Require Import ZArith List Bool Arith.
-From GR Require Import Base.Result IR.State Asm.Model Asm.Proofs Asm.TempPrefix Asm.TempPrefixProofs.
+From GR Require Import Base.Result IR.State Asm.Model Asm.Proofs Asm.TempPrefix Asm.TempPrefixProofs Asm.PatchIds Asm.PatchIdsProofs.
 Import ListNotations.
 Open Scope Z_scope.
 
@@ -85,3 +85,15 @@ Example C13_temporary_label_example :
   temporary_label T_MIPS32 T_ELF "x" = "$Lx"%string /\ symbol_name T_MIPS32 T_ELF "$Lx" "_2" = "$Lx_2"%string /\
   symbol_name T_IA32 T_PE ".Lx" "_2" = ".Lx"%string.
 Proof. repeat split. Qed.
+
+(* ---- the suffix of a context's patches (RewritingContext._last_used_patch_id, Asm/PatchIds.v, run against the implementation on
+        random symbol names): patches are numbered from last_used + 1, so whatever a temporary label is called, the name it gets is the
+        name of no symbol the module already has -- also when the module was rewritten before -- and two patches of one context never
+        give one label the same name ---- *)
+Theorem C13_a_fresh_suffix_names_no_existing_symbol : forall names label k,
+  (last_used_patch_id names < k)%nat -> ~ In (append label (patch_suffix k)) names.
+Proof. exact fresh_suffix_names_no_existing_symbol. Qed.
+
+Theorem C13_suffixes_of_different_patches_differ : forall label j k,
+  append label (patch_suffix j) = append label (patch_suffix k) -> j = k.
+Proof. exact suffixes_differ. Qed.
